@@ -835,10 +835,17 @@ pub fn ladder(rng: &mut Rng, cx: Cx) -> Frag {
             let (l1, l2) = lock_pair(rng);
             Frag::OrD(bx(pk(1)), bx(Frag::OrI(bx(Frag::AndV(bx(Frag::Verify(bx(pk(2)))), bx(l1))), bx(Frag::AndV(bx(Frag::Verify(bx(pk(3)))), bx(l2))))))
         }
-        0 => Frag::OrD(bx(pk(1)), bx(sigless(rng))),
+        0 => {
+            // the signature arm as plain key or behind j: (whose dissatisfaction is the empty element)
+            let left = if rng.chance(1, 3) { Frag::NonZero(bx(Frag::AndV(bx(Frag::Verify(bx(pk(1)))), bx(pk(2))))) } else { pk(1) };
+            Frag::OrD(bx(left), bx(sigless(rng)))
+        }
         1 => Frag::OrI(bx(sigarm(rng)), bx(sigless(rng))),
         2 => Frag::OrI(bx(sigless(rng)), bx(sigarm(rng))),
-        3 => Frag::AndOr(bx(pk(1)), bx(pk(2)), bx(sigless(rng))),
+        3 => {
+            let first = if rng.chance(1, 3) { Frag::NonZero(bx(Frag::AndV(bx(Frag::Verify(bx(pk(1)))), bx(pk(3))))) } else { pk(1) };
+            Frag::AndOr(bx(first), bx(pk(2)), bx(sigless(rng)))
+        }
         4 => Frag::OrB(bx(pk(1)), bx(Frag::Alt(bx(du(sigless(rng)))))),
         5 => {
             let n_sig = 1 + rng.below(3);
